@@ -416,3 +416,91 @@ impl Family for FClosureOrder {
         module(vec![("main", func(&[], main)), ("mk", mk), ("churn", churn)])
     }
 }
+
+/// Twin closures: closure expressions at the *same card position* of two different functions
+/// (two functions of one module, of the root and a submodule, of two sibling modules, of a module
+/// and its child, or of main and a callee), each returning its own tag - calling one must never
+/// run the other's body. With and without a statement in front (card position 0 / 1), with and
+/// without an inner closure, both call orders, 2 or 3 twins.
+pub struct FClosureTwin;
+
+impl FClosureTwin {
+    const DIMS: [u64; 5] = [6, 2, 2, 2, 2];
+}
+
+impl Family for FClosureTwin {
+    fn name(&self) -> &'static str {
+        "F-closure-twin"
+    }
+    fn len(&self) -> u64 {
+        Self::DIMS.iter().product()
+    }
+    fn case(&self, idx: u64) -> Module {
+        let mut i = idx;
+        let mut d = [0u64; 5];
+        for (k, n) in Self::DIMS.iter().enumerate() {
+            d[k] = i % n;
+            i /= n;
+        }
+        let [placement, position, nest, order, three] = d;
+        let maker = |tag: i64| -> Vec<C> {
+            let mut cards: Vec<C> = Vec::new();
+            if position == 1 {
+                cards.push(sv("pad", int(0)));
+            }
+            let body = if nest == 1 { vec![sv("inner", C::Closure(vec![], vec![C::Return(b(int(tag)))])), C::Return(b(dcall(rv("inner"), vec![])))] } else { vec![C::Return(b(int(tag)))] };
+            cards.push(sv("c", C::Closure(vec![], body)));
+            cards
+        };
+        let mk_func = |tag: i64| -> Func {
+            let mut cards = maker(tag);
+            cards.push(C::Return(b(rv("c"))));
+            func(&[], cards)
+        };
+        // where the twins live: (module path, function name)
+        let homes: Vec<(&str, &str)> = match placement {
+            0 => vec![("", "fa"), ("", "fb"), ("", "fc")],
+            1 => vec![("", "fa"), ("m", "fb"), ("m", "fc")],
+            2 => vec![("m", "fa"), ("m", "fb"), ("m", "fc")],
+            3 => vec![("m", "fa"), ("n", "fa"), ("n", "fb")],
+            4 => vec![("m", "fa"), ("m.k", "fa"), ("m.k", "fb")],
+            _ => vec![("", "main"), ("", "fb"), ("m", "fb")],
+        };
+        let count = if three == 1 { 3 } else { 2 };
+        let homes = &homes[..count];
+        let mut root = Module::default();
+        let mut main: Vec<C> = Vec::new();
+        let mut getters: Vec<(String, C)> = Vec::new();
+        for (t, (path, name)) in homes.iter().enumerate() {
+            let tag = (t as i64 + 1) * 11;
+            if *name == "main" {
+                main.extend(maker(tag));
+                getters.push((format!("v{t}"), rv("c")));
+                continue;
+            }
+            // insert the function into the module tree
+            let mut m = &mut root;
+            if !path.is_empty() {
+                for seg in path.split('.') {
+                    if !m.submodules.iter().any(|(n, _)| n == seg) {
+                        m.submodules.push((seg.to_string(), Module::default()));
+                    }
+                    m = &mut m.submodules.iter_mut().find(|(n, _)| n == seg).unwrap().1;
+                }
+            }
+            m.functions.push((name.to_string(), mk_func(tag)));
+            let full = if path.is_empty() { name.to_string() } else { format!("{path}.{name}") };
+            getters.push((format!("v{t}"), call(&full, vec![])));
+        }
+        for (v, g) in getters.iter() {
+            main.push(sv(v, g.clone()));
+        }
+        let mut calls: Vec<C> = getters.iter().map(|(v, _)| log2(v, dcall(rv(v), vec![]))).collect();
+        if order == 1 {
+            calls.reverse();
+        }
+        main.extend(calls);
+        root.functions.insert(0, ("main".to_string(), func(&[], main)));
+        root
+    }
+}
